@@ -70,6 +70,17 @@ func VerifC20_Lifecycle() {
 		if err != nil {
 			verifrt.Reach("failed-provision")
 		}
+		if err == nil && verifrt.Choose(2) == 1 {
+			// while this validator is alive a second one is configured with the same work_dir: it is refused, and
+			// cleaning up the refused instance must not release the directory of the live one
+			dup := &CRLRevocationChecker{}
+			derr := dup.Provision(cfg, zap.NewNop())
+			verifrt.DropSpawned()
+			verifrt.Assert(derr != nil, "a second validator on a work_dir in use is refused")
+			verifrt.Assert(dup.Cleanup() == nil, "cleanup of the refused instance succeeds")
+			verifrt.Assert(RegisterCRLWorkDirUsage(cfg) != nil, "the work_dir still belongs to the live validator after the refused one was cleaned up")
+			verifrt.Reach("refused-duplicate")
+		}
 		verifrt.Assert(c.Cleanup() == nil, "cleanup succeeds")
 		verifrt.Assert(verifrt.LocksHeld() == 0, "no lock held after cleanup")
 		// released: the work_dir can be taken again and no database handle keeps its LOCK
